@@ -62,6 +62,8 @@ impl Stats {
 
 #[derive(Default, Debug)]
 pub struct Report {
+    /// violations grouped so far: (property, signature) -> (occurrences, smallest witness)
+    pub grouped: BTreeMap<(String, String), (usize, Viol)>,
     pub viols: Vec<Viol>,
     pub stats: Stats,
     /// machinery errors (exit 2): vacuity guards, determinism self-check, ...
@@ -69,7 +71,44 @@ pub struct Report {
 }
 
 impl Report {
-    pub fn merge(&mut self, o: Report) {
+    /// Folds the pending violations into the grouped table (keeps memory bounded when a broken
+    /// tree produces millions of them).
+    pub fn compact(&mut self) {
+        for v in self.viols.drain(..) {
+            let k = (v.prop.to_string(), v.sig.clone());
+            match self.grouped.get_mut(&k) {
+                Some(e) => {
+                    e.0 += 1;
+                    if v.rank < e.1.rank {
+                        e.1 = v;
+                    }
+                }
+                None => {
+                    self.grouped.insert(k, (1, v));
+                }
+            }
+        }
+    }
+    pub fn compact_if_large(&mut self) {
+        if self.viols.len() > 20_000 {
+            self.compact();
+        }
+    }
+    pub fn merge(&mut self, mut o: Report) {
+        o.compact();
+        for (k, (c, v)) in o.grouped {
+            match self.grouped.get_mut(&k) {
+                Some(e) => {
+                    e.0 += c;
+                    if v.rank < e.1.rank {
+                        e.1 = v;
+                    }
+                }
+                None => {
+                    self.grouped.insert(k, (c, v));
+                }
+            }
+        }
         self.viols.extend(o.viols);
         self.stats.merge(o.stats);
         self.machinery.extend(o.machinery);
@@ -155,6 +194,10 @@ pub fn finalize(
 ) -> Finalized {
     let known = load_known(&format!("{verif_dir}/known_findings.json"));
     let mut groups: BTreeMap<String, (usize, &Viol)> = BTreeMap::new();
+    for ((p, sig), (c, v)) in rep.grouped.iter().filter(|((p, _), _)| p == prop) {
+        let _ = p;
+        groups.insert(sig.clone(), (*c, v));
+    }
     for v in rep.viols.iter().filter(|v| v.prop == prop) {
         let e = groups.entry(v.sig.clone()).or_insert((0, v));
         e.0 += 1;
